@@ -249,8 +249,15 @@ J_ACTFRC = {"hinge": 'actuatorfrcrange="-2 1.5" actuatorgravcomp="true"', "slide
 
 def tree_model(name, parents, joints, opt, *, smooth=True, limits=False, friction=False, equality=None,
                tendon=None, actuators=1, sensors=1, gravcomp=False, camera=False, mocap=False, spatial=False,
-               tendon_armature=False, actfrc=False, post=None):
-    """One kinematic-forest model with feature bundles; returns the alphabet item (dict)."""
+               tendon_armature=False, actfrc=False, post=None, marker=None):
+    """One kinematic-forest model with feature bundles; returns the alphabet item (dict).
+
+    marker (mass-distribution dimension, default None = every body carries a geom):
+      "leaf"  : the last body gets a jointless child body ``mk`` that carries only a site (``smk``): body mass AND subtree
+                mass are exactly zero (the usual end-effector / target-frame idiom);
+      "frame" : ``mk`` is a massless frame body (site only) that carries a jointless massive child ``mk2``: body mass zero,
+                subtree mass positive.
+    With sensors, the pose and velocity of ``smk`` are reported by two extra sensors."""
     n = len(parents)
     names = joint_names(joints)
     ja = merge_attr(J_SMOOTH if smooth else {}, J_LIMIT if limits else {}, J_FRICTION if friction else {},
@@ -263,6 +270,13 @@ def tree_model(name, parents, joints, opt, *, smooth=True, limits=False, frictio
                         '      <camera name="c2" pos="0.2 0.1 0.3" mode="trackcom"/>\n'
                         '      <camera name="c3" pos="0.3 0.2 0.5" mode="targetbody" target="b0"/>\n'
                         '      <camera name="c4" pos="-0.3 0.2 0.4" mode="targetbodycom" target="b0"/>\n')
+    if marker:
+        if marker not in ("leaf", "frame"):
+            raise ValueError("marker=%r" % (marker,))
+        inner = ('<body name="mk2" pos="0.04 0.02 -0.03"><geom name="gmk" type="sphere" size="0.03" contype="0" conaffinity="0"/></body>'
+                 if marker == "frame" else "")
+        extra[n - 1] += ('      <body name="mk" pos="0.06 -0.05 0.11" quat="0.9 -0.2 0.1 0.3"><site name="smk" pos="0.01 0.02 -0.01"/>%s</body>\n'
+                         % inner)
     world = forest_xml(parents, joints, jattr=ja, battr=battr, extra_in_body=extra)
     world_extra = '    <site name="w0" pos="0.3 0.1 0.4"/>\n'
     if mocap:
@@ -313,6 +327,9 @@ def tree_model(name, parents, joints, opt, *, smooth=True, limits=False, frictio
             sections += "  <equality>\n    %s\n  </equality>\n" % "\n    ".join(e)
     if sensors:
         sections += sensor_section(names, n, level=sensors, has_tf=has_tf, actuators=acts)
+        if marker:
+            sections = sections.replace("  </sensor>", '    <framepos objtype="site" objname="smk"/>\n'
+                                        '    <framelinvel objtype="site" objname="smk"/>\n  </sensor>')
         if camera and sensors >= 2:
             sections = sections.replace("  </sensor>", '    <camprojection site="w0" camera="c0"/>\n'
                                         '    <framepos objtype="camera" objname="c3"/>\n  </sensor>')
